@@ -282,7 +282,7 @@ impl BasicLexer {
                 if !exp && !decimal && pk == '.' {
                     continue;
                 }
-                if !exp && pk == 'E' || pk == 'e' || pk == 'D' || pk == 'd' {
+                if !exp && (pk == 'E' || pk == 'e' || pk == 'D' || pk == 'd') {
                     continue;
                 }
                 if pk == '!' || pk == '#' || pk == '%' {
